@@ -97,6 +97,17 @@ pub fn apply_option(cfg: &mut Config, key: &str, val: &str, exact_case: bool) ->
         "sort_requires" => {
             cfg.sort_requires = SortRequiresConfig { enabled: val == "true" };
         }
+        // deprecated (CHANGELOG: "use call_parentheses = None instead") but still accepted in
+        // stylua.toml, and still honoured next to whatever call_parentheses says
+        "no_call_parentheses" => {
+            if val != "true" && val != "false" {
+                return Err(format!("no_call_parentheses wants a boolean, got {val}"));
+            }
+            #[allow(deprecated)]
+            {
+                cfg.no_call_parentheses = val == "true";
+            }
+        }
         _ => return Err(format!("unknown option {key}")),
     }
     Ok(())
@@ -138,7 +149,9 @@ pub fn parse_stylua_toml(bytes: &[u8]) -> Result<Config, String> {
             }
             return Err(format!("invalid entry in [{t}]: {line}"));
         }
-        if INT_OPTIONS.contains(&k) {
+        if k == "no_call_parentheses" {
+            apply_option(&mut cfg, k, v, true)?;
+        } else if INT_OPTIONS.contains(&k) {
             if v.is_empty() || !v.bytes().all(|b| b.is_ascii_digit()) {
                 return Err(format!("{k} wants an integer, got {v}"));
             }
